@@ -1443,7 +1443,8 @@ impl<'a, SE: extensions::ShellExtensions> WordExpander<'a, SE> {
                         .to_assignable_str(index.as_deref(), self.shell)?;
 
                     let mut attr_str = var.attribute_flags(self.shell);
-                    if attr_str.is_empty() {
+                    let has_attributes = !attr_str.is_empty();
+                    if !has_attributes {
                         attr_str.push('-');
                     }
 
@@ -1463,6 +1464,12 @@ impl<'a, SE: extensions::ShellExtensions> WordExpander<'a, SE> {
                         )
                             .into())
                         }
+                        // N.B. A scalar with attributes needs the `declare` form too, or
+                        // evaluating the text would recreate the value but not the attributes.
+                        ShellValue::String(_) if has_attributes => Ok(std::format!(
+                            "declare -{attr_str} {name}={assignable_value_str}"
+                        )
+                        .into()),
                         ShellValue::String(_) => {
                             Ok(std::format!("{name}={assignable_value_str}").into())
                         }
